@@ -13,6 +13,10 @@ CLAIMED = {
             'level': 'exhaustive over every (de)serialiser site, writer loop, dispatch entry and page test in the current source; '
                      'partial: lanes/lengths/checksums/dispatch/no-drop, not full format conformance',
             'note': NOTE},
+    'C04': {'technique': 'table extraction vs documented grammar, exhaustive evaluation of digit-step expressions, interval analysis of divisors',
+            'level': 'exhaustive over the 10 operators, 10 Var methods, 9 digit branches, every division and every re-serialisation site; '
+                     'partial: operator table / stack capacities / literal conversion / division guard, not the evaluator algorithm',
+            'note': NOTE},
     'C08': {'technique': 'interval analysis (abstract interpretation) of decoder return values and range-loop increments',
             'level': 'exhaustive over every return of the 59 single-instruction decoders and every range loop; lower '
                      'bounds the interval domain cannot establish are listed as observations (not decided)',
